@@ -468,11 +468,18 @@ def run(tier, replay=None):
     rep.extra["inconclusive_connections"] = incon
     rep.extra["tlc_generated_schedules"] = len(tlc_scen)
     rep.extra["data_megabytes_through_sozu"] = round(summ["data_bytes"] / 1e6, 1)
-    rep.add_samples([o.get("label") for o in runs_meta[:200:17]], 6)
+    by_origin = {}
+    for o in runs_meta:
+        if o.get("outcome") in ("done", "closed"):
+            by_origin.setdefault(str(o.get("label", "")).split(":")[0], []).append(
+                "%s [sozu as %s, %d ledger events, %d streams, %s]" % (o.get("label"), o.get("role"), o.get("events", 0), o.get("streams", 0), o.get("outcome")))
+    for origin in ("fixed", "tlc", "rand"):
+        rep.add_samples(by_origin.get(origin, [])[:: max(1, len(by_origin.get(origin, [])) // 3)], 3)
     rep.assumptions += [
         "a peer WINDOW_UPDATE is entered in the ledger when it is sent and new SETTINGS when sozu acknowledges them (exact for shrinks, never stricter than the wire for growth)",
         "liveness in the implementation is observed, not proved: a stall is recorded only if sozu answered a PING sent after the peer's last frame and then stayed silent for the grace period while the ledger says it owes a frame; an unanswered PING makes the connection inconclusive",
         "TLC's model is bounded (windows <= 4, two streams, bodies <= 4, at most two SETTINGS); real sizes (2^31-1 windows, MB bodies, 2^24-1 frames) are reached only through trace validation of sampled schedules",
+        "the checked peer stays below sozu's flood thresholds (C15): at most 30 connection-level WINDOW_UPDATEs per second, a PING round trip every 1000 frames, bodies cut into at most ~200 frames - except the two schedules that reproduce the open finding LoopBudget",
         "the origin behind sozu (mock HTTP/1.1 server, cooperative H2 client) is prompt; sozu's stall reaper is allowed once the peer's clock shows a stream window-blocked for half the configured h2_stream_idle_timeout",
     ]
     rep.finish()
